@@ -15,10 +15,12 @@ one() {
   echo "{\"id\":\"$s\",\"rc\":${rc:-null},\"concrete\":$conc,\"nfi\":$nfi,\"applies\":$applies,\"first\":\"$key\"}"
 }
 export -f one
-echo $ids | tr ' ' '\n' | xargs -P $par -I{} bash -c 'one {}' > /tmp/seed_regress.jsonl
+export OUTF=$(mktemp /tmp/seed_regress.XXXXXX.jsonl)
+echo $ids | tr ' ' '\n' | xargs -P $par -I{} bash -c 'one {}' > $OUTF
 python3 - <<'PY'
-import json
-rows=[json.loads(l) for l in open('/tmp/seed_regress.jsonl') if l.strip()]
+import json, fcntl
+import os
+rows=[json.loads(l) for l in open(os.environ['OUTF']) if l.strip()]
 try:  # a partial run (ids given) updates the rows it re-evaluated and keeps the others
     old={r['id']:r for r in json.load(open('/verif/seeded/regression.json'))}
 except Exception:
